@@ -30,7 +30,11 @@ inductive TxOp
   | tombstoneEdge (r : RelId)
 deriving DecidableEq, Repr, Inhabited
 
-/-- what a committed transaction does to the graph (the storage contract the query layer relies on) -/
+/-- what a committed transaction does to the graph (the storage contract the query layer relies on).
+    The staged write log of a transaction is the ORDERED list of the `WriteableGraph` calls actually issued
+    (`St.ops`); committing applies them in call order (`applyOps`), so for every (entity, key) the LAST issued
+    `set_*_property` / `remove_*_property` call decides the stored value.  A call that is not issued — whatever the
+    reason — is not in the list. -/
 def applyOp (g : Graph) : TxOp → Graph
   | .createNode id ls => { g with nodes := g.nodes ++ [⟨id, ls.eraseDups, []⟩] }
   | .addLabel n l => Spec.updNode g n fun nd => if nd.labels.contains l then nd else { nd with labels := nd.labels ++ [l] }
@@ -642,5 +646,19 @@ def step (g : Graph) (next : Nat) (names : List String) (stmt : Stmt) :
     Except Err (Graph × Nat × Nat × List String) := do
   let (ops, created, count, names') ← runStmt A params g next names stmt
   return (applyOps g ops, next + created, count, names')
+
+/-- several statements in ONE write transaction, all executed against the same snapshot `g` (the caller takes
+    `db.snapshot()` once, then `begin_write`): the staged write log is the concatenation of the statements' calls
+    in order, node ids keep counting, every statement reads the pre-transaction snapshot -/
+def runTxn (g : Graph) (next : Nat) (names : List String) (stmts : List Stmt) :
+    Except Err (List TxOp × Nat × List Nat × List String) :=
+  stmts.foldlM (fun (acc : List TxOp × Nat × List Nat × List String) stmt => do
+    let (ops', created', count', names') ← runStmt A params g (next + acc.2.1) acc.2.2.2 stmt
+    pure (acc.1 ++ ops', acc.2.1 + created', acc.2.2.1 ++ [count'], names')) ([], 0, [], names)
+
+def stepTxn (g : Graph) (next : Nat) (names : List String) (stmts : List Stmt) :
+    Except Err (Graph × Nat × List Nat × List String) := do
+  let (ops, created, counts, names') ← runTxn A params g next names stmts
+  return (applyOps g ops, next + created, counts, names')
 
 end Nervus.Cy.Update
